@@ -97,7 +97,7 @@ def _repro_task(task):
             st.bump("polluter_runs", 3)
         except Exception:  # noqa
             pass
-        scripts = list(itertools.product((0.0, 1.0), repeat=T)) + [("peak",) * 40]
+        scripts = list(itertools.product((0.0, 1.0), repeat=T)) + [("peak",) * 40] + [tuple(x) for x in task.get("extra_scripts", [])]
         for seed in task["seeds"]:
             for rew in scripts:
                 try:
@@ -296,6 +296,14 @@ def tasks(tier, seed):
                 params = dict(params, n=16, h_max=6)
             cfg = configs.cfg(algo, part, K, configs.BOXES[box], **params)
             ts.append({"kind": "repro", "label": "repro/%s/%s" % (label, part), "cfg": cfg, "T": 5 if tier == "quick" else 6, "seeds": seeds, "cost": 2})
+    # schedule-driven algorithms with budgets large enough to reach their later phases (validation of several
+    # candidates, all GPO phases): long scripts with tied and with point-dependent rewards
+    for algo, params, L in (("StroquOOL", dict(n=1000), 130), ("StroquOOL", dict(n=600), 90), ("SequOOL", dict(n=100), 100),
+                            ("GPO", dict(numax=1.0, rhomax=0.9, rounds=100, base="HCT"), 100)):
+        for part, K, box in (("Binary", None, "u1"), ("RandomBinary", None, "u2")):
+            cfg = configs.cfg(algo, part, K, configs.BOXES[box], **params)
+            ts.append({"kind": "repro", "label": "reprolong/%s%s/%s" % (algo, params.get("n", ""), part), "cfg": cfg, "T": 1, "seeds": seeds[:2],
+                       "extra_scripts": [[0.5] * L, ["peak"] * L, [1.0, -1.0] * (L // 2)], "cost": 4})
     free = [(l, a, p) for (l, a, p) in _variants() if a != "VROOM"]
     parts = [("DimensionBinary", None, "u2"), ("Binary", None, "u1"), ("Kary", 3, "u1")]
     for i, (la, aa, pa) in enumerate(free):
